@@ -1,6 +1,6 @@
 \* negative control: the faulty implementation named by Fault must violate the corresponding invariant
 CONSTANTS
-  MaxObjs = 2
+  MaxObjs = 3
   Contents = {c1, c2}
   Labels = {n1}
   Hashes = {h1, h2}
